@@ -1069,7 +1069,7 @@ func (ex *Exec) instr(in ssa.Instruction) {
 		if fa, ok := i.Addr.(*ssa.FieldAddr); ok && ex.pass == 2 {
 			if T, f, ok := fieldOfLoad(fa); ok {
 				for _, ti := range vc.ctx.cf.TypeInvs {
-					if ti.Stable || ti.Type != T {
+					if ti.Stable || ti.WritersOnly || ti.Type != T {
 						continue
 					}
 					isField, isPres := false, false
@@ -2464,7 +2464,7 @@ func (ex *Exec) assumeTypeInv(term string, t types.Type) {
 		return
 	}
 	for tix, ti := range ex.vc.ctx.cf.TypeInvs {
-		if ti.Type != n.Obj().Name() || ti.Stable {
+		if ti.Type != n.Obj().Name() || ti.Stable || ti.WritersOnly {
 			continue
 		}
 		if !ex.relevantTI(tix) {
